@@ -405,7 +405,9 @@ pub fn check_c19(cx: &C19Ctx, out: &mut Outcome) {
                     let w = ws.get(sid);
                     let reset = w.map(|w| !w.rst[i].is_empty() || !w.rst[p].is_empty()).unwrap_or(false);
                     let clean = w.map(|w| w.end[i].is_some() && w.end[p].is_some() && w.rst[i].is_empty() && w.rst[p].is_empty()).unwrap_or(false);
-                    let waited_for_capacity = cx.events.iter().any(|e| e.side == *side && Some(e.key) == key && matches!(&e.api, Api::CapacityErr { .. } | Api::CapacityEnd));
+                    // (the application used the reservation API on the stream: it held or awaited assigned capacity — the
+                    // stream can then sit in the prioritizer's capacity queue when it is reset)
+                    let waited_for_capacity = cx.events.iter().any(|e| e.side == *side && Some(e.key) == key && matches!(&e.api, Api::CapacityErr { .. } | Api::CapacityEnd | Api::Capacity { .. }));
                     if reset && (submitted > on_wire || waited_for_capacity) {
                         "reset-while-waiting-for-send-capacity"
                     } else if clean {
@@ -920,6 +922,69 @@ pub fn check_c03(cx: &C03Ctx, out: &mut Outcome) {
                 if !undelivered && peer_view != st.recv_window as i64 {
                     out.fail("C03", "conservation/wire-vs-books", "C03/advertised-window-differs-from-bookkeeping", format!("{}: from the wire the connection window is {} (65535 + {} granted − {} received) but the endpoint believes it advertised {}", e.name(), peer_view, wu, delivered_all, st.recv_window));
                 }
+            }
+        }
+    }
+}
+
+
+// ------------------------------------------------------------ C05 / C06: a queued request goes out once a slot is free
+
+/// At quiescence of a live connection every request the client application submitted (send_request returned Ok) and
+/// did not cancel has its HEADERS on the wire, unless as many earlier streams as the acknowledged limit allows are
+/// still open: "requests beyond the limit wait and are sent as soon as earlier streams close".
+pub fn check_queued_requests_sent(tap: &Tap, av: &crate::oracles::AckedView, events: &[ApiEvent], live_quiescent: bool, out: &mut Outcome) {
+    if !live_quiescent {
+        return;
+    }
+    let e = Side::Client;
+    let i = crate::tapx::side_idx(e);
+    let p = 1 - i;
+    if events.iter().any(|ev| matches!(&ev.api, Api::ConnDone { .. }) || matches!(&ev.api, Api::ConnOp { op } if op.starts_with("drop(Connection)") || op.starts_with("graceful") || op.starts_with("abrupt"))) {
+        return;
+    }
+    if tap.frames.iter().any(|f| matches!(&f.frame, Ok(Frame::GoAway { .. }))) {
+        return;
+    }
+    let ws = wire_streams(tap);
+    let apps = app_streams(events);
+    // the limit the client has acknowledged at the end
+    let limit = tap.frames.iter().enumerate().filter(|(_, f)| f.from == e).last().and_then(|(pos, _)| av.at[pos].2);
+    let limit = match limit {
+        Some(l) => l as usize,
+        None => usize::MAX,
+    };
+    let open_now = ws
+        .iter()
+        .filter(|(_, w)| w.opened_by == Some(e))
+        .filter(|(_, w)| {
+            let e_closed = w.end[i].is_some() || !w.rst[i].is_empty();
+            let p_closed = w.end[p].map(|x| x.1.is_some()).unwrap_or(false) || w.rst[p].iter().any(|r| r.1.is_some());
+            let any_rst = !w.rst[i].is_empty() || w.rst[p].iter().any(|r| r.1.is_some());
+            !(any_rst || (e_closed && p_closed))
+        })
+        .count();
+    for ev in events.iter().filter(|ev| ev.side == e) {
+        if let Api::SentHead { kind: "request", stream, .. } = &ev.api {
+            if *stream == 0 {
+                continue;
+            }
+            let on_wire = ws.get(stream).map(|w| w.headers_t_w[i].is_some()).unwrap_or(false);
+            if on_wire {
+                continue;
+            }
+            let cancelled = apps.get(&(e, *stream)).map(|a| !a.resets.is_empty() || a.early_drop.is_some()).unwrap_or(false) || events.iter().any(|x| x.side == e && x.key == ev.key && matches!(&x.api, Api::DroppedResponseFuture | Api::DroppedSend | Api::SentReset { .. }));
+            if cancelled {
+                continue;
+            }
+            if open_now < limit {
+                out.fail(
+                    "C05",
+                    "concurrency/queued-request",
+                    "C05/queued-request-never-sent-although-a-slot-is-free",
+                    format!("client: send_request for stream {} (key {}) succeeded and the application still waits for it, the connection is idle, {} of its streams are open on the wire and the acknowledged limit is {} — yet the request's HEADERS were never written", stream, ev.key, open_now, if limit == usize::MAX { "none".to_string() } else { limit.to_string() }),
+                );
+                return;
             }
         }
     }
